@@ -45,6 +45,7 @@ type ProjectRunner struct {
 	logger            pclog.PcLogger
 	waitGroup         sync.WaitGroup
 	exitCode          int
+	exitCodeOnce      sync.Once
 	projectState      *types.ProjectState
 	mainProcess       string
 	mainProcessArgs   []string
@@ -200,15 +201,23 @@ func (p *ProjectRunner) waitIfNeeded(process *types.ProcessConfig) error {
 func (p *ProjectRunner) onProcessEnd(exitCode int, procConf *types.ProcessConfig) {
 	if (exitCode != 0 && procConf.RestartPolicy.Restart == types.RestartPolicyExitOnFailure) ||
 		procConf.RestartPolicy.ExitOnEnd {
+		p.setExitCodeOnce(exitCode)
 		_ = p.ShutDownProject()
-		p.exitCode = exitCode
 	}
+}
+
+// the process that triggers the project shutdown decides the exit code, not the
+// processes that are terminated by that shutdown
+func (p *ProjectRunner) setExitCodeOnce(exitCode int) {
+	p.exitCodeOnce.Do(func() {
+		p.exitCode = exitCode
+	})
 }
 
 func (p *ProjectRunner) onProcessSkipped(procConf *types.ProcessConfig) {
 	if procConf.RestartPolicy.ExitOnSkipped {
+		p.setExitCodeOnce(1)
 		_ = p.ShutDownProject()
-		p.exitCode = 1
 	}
 }
 
